@@ -18,8 +18,12 @@
    (refused)  otherwise error report chosen by the first failing test, cache and subscribers untouched, driver not called
               -- C04_change_refused, C04_do_refused (a do specifier without ':' is answered ProtocolError since fix
               8821998; the former exception and C04_refuted_do_specifier_without_colon are gone), C04_refusal_class,
-              C04_error_clean_except_unexportable (exception: a stored value that cannot be exported; repaired for
-              absent optional members by fix 45926fd), C04_error_clean_exportable, C04_success_announced
+              C04_error_clean (NO exception: from every state reachable from a cache whose values lie in their value
+              sets, any error reply -- also after the driver ran -- leaves cache and subscribers alone; rests on
+              C04_validated_values_export: a value of the declared value set always exports), C04_error_clean_step,
+              C04_history_error_outputs, C04_reply_always_built, C04_success_announced; for ARBITRARY caches (no
+              invariant assumed) C04_error_clean_except_unexportable keeps the explicit exception, and
+              C04_error_clean_exportable is its special case for modules without struct-typed parameters
    (history)  lifted over every request sequence from every cache whose values lie in their value sets
               -- C04_history_invariant, C04_history_write_values, C04_history_call_values
    (current)  "satisfies the module's CURRENT dynamic limits and check hooks": with any number of threads calling write
@@ -31,6 +35,7 @@
 From Coq Require Import ZArith NArith Bool List.
 Import ListNotations.
 Require Import FV.Gen.C04 FV.Base.F64 FV.Base.PyVal FV.C01.Model FV.C01.Lemmas.
+Require Import FV.C01.IdemDefs FV.C04.LemmasIdem.
 Require Import FV.C04.Model FV.C04.Lemmas FV.C04.LemmasHist FV.C04.ConcModel FV.C04.LemmasConc FV.C04.LemmasSolo FV.C04.Refuted.
 
 (* obligations on the facts regenerated from /repo (Gen/C04.v): the order of the tests in _setParameterValue /
@@ -121,8 +126,8 @@ Proof. exact wire_refusal_class. Qed.
    alone.  Proved with one explicit exception: the value was stored and then cannot be exported.  Until fix 45926fd that
    happened for every nested struct lacking an optional member (finding nested-optional-struct-stored-then-error, now
    repaired); since then exportable only fails for a value lacking a MANDATORY member or carrying an unknown key, which
-   validation never returns (C01 validate_sound; the implication in_setb -> exportable is not proved here, it is
-   exercised by the correspondence).  Unconditional for modules whose values always export. *)
+   validation never returns.  This form assumes NOTHING about the cache (it may hold values outside the value sets); the
+   full-strength form over reachable states, without exception, is C04_error_clean below. *)
 Theorem C04_error_clean_except_unexportable : forall E hook md c rq,
   o_reply (handle E hook md c rq) <> None ->
   (o_upd (handle E hook md c rq) = [] /\ o_cache (handle E hook md c rq) = c) \/
@@ -130,11 +135,74 @@ Theorem C04_error_clean_except_unexportable : forall E hook md c rq,
      stored_unexportable p c (handle E hook md c rq)).
 Proof. intros E hook md c rq. exact (error_clean_except_unexportable E hook md c rq). Qed.
 
+(* special case, arbitrary cache: modules all of whose parameter types export EVERY python value, i.e. modules without
+   struct-typed parameter (for a struct type the premise is false: NonVacuity.v,
+   C04_error_clean_exportable_premise_false_for_struct_params).  Superseded by C04_error_clean. *)
 Theorem C04_error_clean_exportable : forall E hook md c rq,
   (forall p x, In (AParam p) (md_acc md) -> exportable (p_dt p) x = true) ->
   o_reply (handle E hook md c rq) <> None ->
   o_upd (handle E hook md c rq) = [] /\ o_cache (handle E hook md c rq) = c.
 Proof. intros E hook md c rq. exact (error_clean E hook md c rq). Qed.
+
+(* validated values always export: StructOf/ArrayOf/TupleOf.export_value (check_type(value, True), element-wise) refuse
+   no value of the declared value set -- every datatype tree (no wf needed), unbounded depth and width.  With C01
+   validate_sound: whatever validate returns exports. *)
+Theorem C04_validated_values_export : forall d x, in_setb d x = true -> exportable d x = true.
+Proof. exact in_setb_exportable. Qed.
+
+Theorem C04_validate_result_exports : forall d, wf d -> forall v prev r,
+  prev_ok d prev -> dt_validate d v prev = Ok r -> exportable d r = true.
+Proof. exact validated_exportable. Qed.
+
+(* one request on a cache whose values lie in their value sets: ANY error reply (refused by name / flag / datatype / check
+   chain, driver raised, read-back value invalid) leaves cache and subscribers alone.  No exception. *)
+Theorem C04_error_clean_step : forall E hook md c rq, wf_md md -> cache_ok md c ->
+  o_reply (handle E hook md c rq) <> None ->
+  o_upd (handle E hook md c rq) = [] /\ o_cache (handle E hook md c rq) = c.
+Proof. intros E hook md c rq. exact (error_clean_ok E hook md c rq). Qed.
+
+(* FULL statement over histories: c' ranges over every state reachable by ANY request sequence pre (any payloads, any
+   driver behaviour, any hooks) from any cache_ok cache (cache_ok is established at start-up and preserved:
+   C04_history_invariant); rq is any request. *)
+Theorem C04_error_clean : forall E hook md, wf_md md -> names_unique md -> forall pre c rq, cache_ok md c ->
+  let c' := final E hook md c pre in
+  o_reply (handle E hook md c' rq) <> None ->
+  o_upd (handle E hook md c' rq) = [] /\ o_cache (handle E hook md c' rq) = c'.
+Proof. intros E hook md. exact (history_error_clean E hook md). Qed.
+
+(* the same read off the output list of a history: an output with an error reply carries no update and its cache is the
+   cache the request started from *)
+Theorem C04_history_error_outputs : forall E hook md, wf_md md -> names_unique md -> forall rqs c, cache_ok md c ->
+  forall o, In o (run E hook md c rqs) -> o_reply o <> None ->
+  o_upd o = [] /\ exists c' rq, cache_ok md c' /\ In rq rqs /\ o = handle E hook md c' rq /\ o_cache o = c'.
+Proof. intros E hook md. exact (run_error_clean E hook md). Qed.
+
+(* "return pobj.export_value()" of _setParameterValue never fails from a cache_ok cache: the reply of a change request is
+   the result of the write wrapper (the WrongType branch of reply_export is dead on reachable states) *)
+Theorem C04_reply_always_built : forall hook md c p v d, wf_md md -> cache_ok md c -> In (AParam p) (md_acc md) ->
+  in_setb (p_dt p) v = true -> reply_export p (write_wrapper hook p v c d) = write_wrapper hook p v c d.
+Proof. intros hook md c p v d. exact (reply_always_built hook md c p v d). Qed.
+
+(* the dead branch of C04_change_refused.  _setParameterValue validates the payload (with the cached value as previous
+   value) and the write wrapper validates the result again; C04_change_refused has a case "first validation Ok v, second
+   validation Err e".  That case fires only from a cache holding values that validation would not return (NonVacuity.v,
+   C04_change_refused_applies_second_validation).  In every state reachable from a cache whose values are fixed points
+   of validation (cache_st; C01 stable) the second validation returns exactly its argument, and the driver receives
+   exactly the value the dispatcher's validation produced.  regular_md = the hypotheses of the C01 idempotence theorems on
+   every parameter type (idem_dt: no negative-zero limit, finite relative resolution, distinct enum values; small_grids:
+   scaled grids of realistic size -- beyond them C01/Refuted.v has a counterexample to idempotence). *)
+Theorem C04_second_validation_never_fails : forall E hook md, wf_md md -> regular_md md -> names_unique md ->
+  forall pre c, cache_st md c ->
+  let c' := final E hook md c pre in
+  forall rq p v, lookup_export md (ename rq) = Some (AParam p) ->
+    wire E (p_dt p) (rq_data rq) (prev_of c' p) = Ok v ->
+    dt_validate (p_dt p) v PNone = Ok v /\
+    (o_drv (handle_change E hook md c' rq) <> [] -> o_drv (handle_change E hook md c' rq) = [Write (p_name p) v]).
+Proof. intros E hook md. exact (history_second_validation E hook md). Qed.
+
+Theorem C04_fixed_point_cache_invariant : forall E hook md, wf_md md -> regular_md md -> names_unique md ->
+  forall rqs c, cache_st md c -> cache_st md (final E hook md c rqs).
+Proof. intros E hook md. exact (final_st E hook md). Qed.
 
 (* a success reply: nothing changed (driver said Done) or exactly one value stored, announced once, and exportable *)
 Theorem C04_success_announced : forall hook p v c d,
@@ -236,6 +304,48 @@ Example C04_demo_both_kinds :
   o_reply (handle E0 no_hooks demo_md [] {| rq_act := ADo; rq_mod := s_m; rq_acc := None; rq_data := PNone; rq_drv := DNone |})
     = Some ProtocolError.
 Proof. vm_compute. repeat split. Qed.
+
+(* non-vacuity of C04_error_clean: the type of the former finding, ArrayOf(StructOf(b=IntRange(0,5), optional=['b'])).
+   [{"b":1},{}] lies in the value set and exports; after it was stored (a reachable state that is not the initial one) a
+   request whose driver raises, one whose read-back value is invalid and one with an invalid payload are answered with
+   an error; cache and subscribers are left alone.  The premises hold for this module (demo2_premises). *)
+Definition s_b : str := [98%N].
+Definition d_opt : dtype := TArray (TStruct [(s_b, TInt 0 5)] [s_b] false) 0 3.
+Definition demo2_md : mdesc :=
+  {| md_name := s_m; md_export := true;
+     md_acc := [AParam {| p_name := s_a; p_export := Some s__a; p_dt := d_opt; p_readonly := false; p_constant := false;
+                          p_haswrite := true; p_checks := [] |}] |}.
+Definition demo2_c0 : cache := [(s_a, PTuple [])].
+Definition v_opt : pyval := PList [PDict [(s_b, PInt 1)]; PDict []].
+Definition chg2 (v : pyval) (d : drv) : request :=
+  {| rq_act := AChange; rq_mod := s_m; rq_acc := Some s__a; rq_data := v; rq_drv := d |}.
+Example demo2_premises : wf_md demo2_md /\ names_unique demo2_md /\ cache_ok demo2_md demo2_c0.
+Proof.
+  split; [split|split].
+  - intros p [H|[]]; injection H as <-; vm_compute; auto.
+  - intros cm ad [H|[]]; discriminate.
+  - intros p q [H|[]] [G|[]]; injection H as <-; injection G as <-; reflexivity.
+  - intros p [H|[]]; injection H as <-; eexists; split; vm_compute; reflexivity.
+Qed.
+Example demo2_value_exports :
+  in_setb d_opt (PTuple [PDict [(s_b, PInt 1)]; PDict []]) = true /\
+  exportable d_opt (PTuple [PDict [(s_b, PInt 1)]; PDict []]) = true /\
+  exportable d_opt (PTuple [PDict [(s_a, PInt 1)]]) = false.
+Proof. vm_compute. repeat split. Qed.
+Example demo2_reached_state :
+  final E0 no_hooks demo2_md demo2_c0 [chg2 v_opt DNone] = [(s_a, PTuple [PDict [(s_b, PInt 1)]; PDict []])] /\
+  map (fun o => (o_reply o, o_upd o)) (run E0 no_hooks demo2_md demo2_c0 [chg2 v_opt DNone]) =
+    [(None, [(s_a, PTuple [PDict [(s_b, PInt 1)]; PDict []])])].
+Proof. vm_compute. split; reflexivity. Qed.
+Example demo2_error_replies :
+  map (fun rq => o_reply (handle E0 no_hooks demo2_md (final E0 no_hooks demo2_md demo2_c0 [chg2 v_opt DNone]) rq))
+      [chg2 (PList [PDict []]) (DRaise (ESecop HardwareError)); chg2 (PList []) (DVal (PList [PDict [(s_b, PInt 9)]]));
+       chg2 (PList [PDict [(s_a, PInt 1)]]) DNone] =
+  [Some HardwareError; Some RangeError; Some WrongType].
+Proof. vm_compute. reflexivity. Qed.
+Example C04_error_clean_applies (rq : request) :=
+  let (W, UC) := demo2_premises in let (U, C) := UC in
+  C04_error_clean E0 no_hooks demo2_md W U [chg2 v_opt DNone] demo2_c0 rq C.
 
 (* ------------------------------------------------------------------ concurrent callers of the write wrappers *)
 (* progs: ANY number of threads, each with ANY sequence of operations (direct calls write_<p>(v) of any parameter with
@@ -342,6 +452,14 @@ Print Assumptions C04_only_exported_found.
 Print Assumptions C04_refusal_class.
 Print Assumptions C04_error_clean_except_unexportable.
 Print Assumptions C04_error_clean_exportable.
+Print Assumptions C04_validated_values_export.
+Print Assumptions C04_validate_result_exports.
+Print Assumptions C04_error_clean_step.
+Print Assumptions C04_error_clean.
+Print Assumptions C04_history_error_outputs.
+Print Assumptions C04_reply_always_built.
+Print Assumptions C04_second_validation_never_fails.
+Print Assumptions C04_fixed_point_cache_invariant.
 Print Assumptions C04_success_announced.
 Print Assumptions C04_do_safe.
 Print Assumptions C04_do_refused.
